@@ -791,6 +791,56 @@ def buffer_dtypes(ctx, prog, modname, rule):
     return n
 
 
+
+def pairing_domain(ctx, prog):
+    """which (key array, state array) shapes the cipher accepts: _prepare_keys interpreted (sa.symtensor, concrete shapes) for the
+    three key sizes, keys and states given as one vector or as N rows: every combination is accepted except N keys with M != N
+    states, and arrays of more than two dimensions (documented: one block per key, or one against many)."""
+    from .. import symtensor, ratfun
+    np = symtensor.np
+    f = prog.need_func(A, '_prepare_keys')
+    key = f'{f.key}::accepted shapes'
+    if np is None:
+        ctx.undecided('C05-D8', key, 'numpy is not available to the analysis interpreter', f.where())
+        return 0
+    kp, sp, mp = f.params[0], f.params[1], f.params[2]
+    bad = None
+    n = 0
+    try:
+        for klen in (16, 24, 32):
+            for kshape in ((klen,), (1, klen), (3, klen), (2, 2, klen)):
+                for sshape in ((16,), (1, 16), (3, 16), (4, 16), (2, 2, 16)):
+                    for mode in ('encrypt', 'decrypt'):
+                        te = symtensor.TensorEval(prog, None, {})
+                        te.numeric = True
+                        te.strict_if = True
+                        te.summaries = {}
+
+                        def hook(e, fn_, env, ev, klen=klen):
+                            nm = norm(e.func).split('.')[-1]
+                            if nm.startswith('_is_bytes'):
+                                return True
+                            if nm == 'key_schedule':
+                                k_ = ev.ev(fn_, e.args[0], env)
+                                rounds = {16: 11, 24: 13, 32: 15}[klen]
+                                return np.zeros(k_.shape[:-1] + (rounds, 16), dtype=np.uint8)
+                            return NotImplemented
+                        te.call_hook = hook
+                        n += 1
+                        legal = len(kshape) <= 2 and len(sshape) <= 2 and not (len(kshape) == 2 and len(sshape) == 2 and kshape[0] != sshape[0])
+                        try:
+                            te.run(f, {kp: np.zeros(kshape, dtype=np.uint8), sp: np.zeros(sshape, dtype=np.uint8), mp: mode})
+                            got = True
+                        except symtensor.Raised:
+                            got = False
+                        if got != legal and bad is None:
+                            bad = (f'{mode} with keys of shape {kshape} and states of shape {sshape} is ' + ('refused' if legal else 'accepted') +
+                                   ('; documented: N keys go with N states, whatever the key size' if legal else '; documented: at most two dimensions, N keys with N states'))
+        ctx.check(bad is None, 'C05-D8', key, f'{bad}', f'{n} (key size, key shape, state shape, mode) cases: accepted exactly when at most two dimensions and, for N keys with M states, N = M', f.where(), cases=n)
+    except ratfun.Unknown as e:
+        ctx.undecided('C05-D8', key, f'_prepare_keys not evaluable: {e}', f.where())
+    return n
+
 def run(ctx, prog):
     ctx.rule('C05-D1', 'literal tables equal the FIPS-197 definitions (generated from GF(2^8) arithmetic), all entries')
     ctx.rule('C05-D2', 'primitives bind the right table / operation')
@@ -811,3 +861,5 @@ def run(ctx, prog):
     ctx.floor('stop points composed (aes)', n6, 2 * 3 * 12 * 5)
     ctx.floor('table entries compared', n1, 256 * 8 + 32 + 10)
     ctx.floor('in-place effects judged (aes)', n5, 8)
+    ctx.rule('C05-D8', 'pairing of keys and states: accepted exactly when both have at most two dimensions and N keys go with N states, for the three key sizes and both modes (interpretation of _prepare_keys on concrete shapes)')
+    ctx.floor('pairing cases interpreted', pairing_domain(ctx, prog), 100)
